@@ -3,7 +3,7 @@ swizzleRanks to make operands concordant with the loop order, splitUniform for t
 co-iterate factors, << to drive the output, * and += on payloads.  It contains no expected values."""
 import sys
 
-sys.path.insert(0, "/repo")
+sys.path.insert(0, __import__("os").environ.get("VERIF_REPO", "/repo"))
 from fibertree import Fiber, Payload, Tensor  # noqa: E402
 from fibertree.core.metrics import Metrics  # noqa: E402
 from . import proj  # noqa: E402
